@@ -35,6 +35,7 @@ where
         iter: &Self::ConIter,
         begin_idx: usize,
     ) -> Option<impl ExactSizeIterator<Item = T>> {
+        let guard = iter.complete_on_panic();
         let core_iter = unsafe { iter.mut_iter() };
 
         let mut i = 0;
@@ -49,6 +50,7 @@ where
                 break;
             }
         }
+        drop(guard);
 
         let older_count = iter.progress_yielded_counter(self.chunk_size());
         assert_eq!(older_count, begin_idx);
